@@ -138,6 +138,13 @@ class TermEngine(Engine):
         raise Unsupported("comparison of non-scalars")
 
     def ev(self, e, env, pc):
+        if isinstance(e, ast.ListComp) and len(e.generators) == 1 and not e.generators[0].ifs and isinstance(e.generators[0].target, ast.Name):
+            # an elementwise conversion of an array-valued term, e.g. [int(x.item()) for x in dim]: a term named by the element expression
+            g = e.generators[0]
+            src = self.ev(g.iter, env, pc)
+            if is_arr(src) and {n.id for n in ast.walk(e.elt) if isinstance(n, ast.Name)} <= {g.target.id, "int", "float", "complex", "abs"}:
+                return uf("map[%s for %s]" % (ast.unparse(e.elt), g.target.id), Arr, src)
+            raise Unsupported("list comprehension")
         if isinstance(e, ast.Constant) and isinstance(e.value, complex):
             return uf("complex-constant[%r]" % (e.value,), z3.RealSort())
         if isinstance(e, ast.Call) and isinstance(e.func, ast.Name) and e.func.id == "len" and len(e.args) == 1:
@@ -211,7 +218,7 @@ class TermEngine(Engine):
         if isinstance(s, ast.Assign) and len(s.targets) == 1 and isinstance(s.targets[0], ast.Name):
             try:
                 v = self.ev(s.value, env, pc)
-            except Unsupported as u:
+            except (Unsupported, AttributeError, TypeError, z3.Z3Exception) as u:  # an uninterpretable right-hand side poisons only its target
                 v = Poison("%s = %s: %s" % (s.targets[0].id, ast.unparse(s.value)[:60], u))
             env[s.targets[0].id] = v
             return [(env, pc)]
